@@ -31,6 +31,10 @@ CHECKS = {
    text="Probe resources built on kira's public command module (a Sound, an Effect and a Modulator, placed on the main track, on sub-tracks, three levels deep, and in the modulator arena) carry two command kinds with unique checksummed payloads and log every read. (ops) bursts of writes between callbacks, also before the resource is picked up, checked against the sequential latest-value mailbox model: polled exactly once per callback, exactly the last write applied, nothing applied twice or late. (sched) a gameplay task writes while an audio task runs callbacks under seeded random schedules at the yield points around CommandWriter::write / CommandReader::read; the stamped history is checked for strictly increasing applications, promptness, no time travel, quiescence and intact payloads. (real) bursts of set_volume through real handles (sound, track, main, send, effect, tweener) and seek_by, observed as audio: the value in force is the last write and stays there.",
    note="triple_buffer operations are atomic steps in the simulation; the decoder-side seek / loop-region commands of streaming sounds are exercised by C10 / C18.",
    technique="deterministic simulation: sequential mailbox model over op histories + seeded thread schedules with a stamped-history (linearizability-style) check"),
+ "C08": dict(level="exploration", design="3 C08, appendix A.3",
+   text="Three simulated workloads. (ops) long create / drop / finish histories over sub-tracks, nested tracks, send tracks, clocks, modulators, listeners and sounds at capacities {0, 1, 2, 3, 5}, with counts queried after every op, against a counter model: creation succeeds iff alive + awaiting removal < capacity, otherwise the documented error and never a panic; removal at the next callback (the one after if not yet picked up); every payload destroyed exactly once and never in the audio role; no heap traffic in the callback. (stale) an id of a removed clock / modulator / send track / listener is left dangling in a one-slot arena while a newcomer takes the slot: it must resolve to 'missing'. (sched) a gameplay task creating, dropping and counting against an audio task under seeded random schedules at the yield points inside try_reserve, insert_with_key, remove_and_add and remove_unused, with interval-based accounting over the stamped history and exact accounting after quiescence.",
+   note="atomic-arena / rtrb operations are atomic steps; tracks are dropped with their nested handles (other orders: C12). Three defects found by these workloads were repaired (capacity 0 panic; two races that overflowed / wedged the unused-resource queue); their witnesses are replayed on every run.",
+   technique="deterministic simulation: counter reference model over op histories, scripted stale-id fault scenarios, seeded thread schedules at guarded yield points with interval (linearizability-style) accounting"),
  "C09": dict(level="exploration", design="3 C09",
    text="Differential simulation: one generated audio content / settings / command history is played by the static and by the streaming implementation side by side on the same simulated audio clock; the streaming decoder thread is a gated simulator task run until it sleeps or ends before every callback, with generated packet sizes and seek granularities. Outputs must be bit-identical, states identical at every callback, positions within one frame until the sound ends.",
    note="Decoder is a scripted stub; the real DecodeScheduler loop runs on its own (gated) thread. 'Keeps ahead' is enforced by construction (chunks <= 200 frames, rate <= 3).",
